@@ -12,7 +12,7 @@ var stdReopen = []reopenVar{{Cache: 0, Fast: true, Flush: 0}, {Cache: 1000, Fast
 
 func c01Alpha() Alpha {
 	return Alpha{Writes: true, RemoveAbsent: true, SetNil: true, Save: true, Rollback: true, Reopen: stdReopen,
-		LoadVersion: true, DelTo: true, LVFO: true}
+		LoadVersion: true, DelTo: true, LVFO: true, ReadAll: true}
 }
 
 // singleDeviationCfgs: the default configuration and every single-dimension deviation from it.
@@ -42,11 +42,7 @@ func c01Specs(tier string) []*Spec {
 	add := func(name string, cfg Cfg, keys [][]byte, vals [][]byte, depth, maint int) {
 		pr := probesFor(keys)
 		a := c01Alpha()
-		wt := 1
-		if depth >= 6 {
-			wt = 12
-		}
-		specs = append(specs, &Spec{Weight: wt, ID: "C01", Name: name, Cfg: cfg, Keys: keys, Vals: vals, MaxDepth: depth, MaxMaint: maint,
+		specs = append(specs, &Spec{ID: "C01", Name: name, Cfg: cfg, Keys: keys, Vals: vals, MaxDepth: depth, MaxMaint: maint,
 			Alphabet: a.Ops, Oracles: []Oracle{oracleReads(pr), {Name: "reads-again", Fn: oracleReads(pr).Fn}}})
 	}
 	vals := bs("x", "")
@@ -131,6 +127,9 @@ func runSpecs(c *Ctx, specs []*Spec) *Result {
 	for _, s := range specs {
 		if s.Weight <= 0 {
 			s.Weight = 1
+			for d := 4; d < s.MaxDepth; d++ {
+				s.Weight *= 2
+			}
 		}
 		wsum += s.Weight
 	}
